@@ -13,7 +13,7 @@ SHARDS = {"quick": 16, "thorough": 16}
 WATCHDOG = {"quick": 1800, "thorough": 7200}
 CASES = {"quick": 150, "thorough": 2000}
 FLOORS = {
-    "quick": {"distinct_nontrivial": 670, "segments_checked": 4500, "cases_with_adjacent_flagged": 570,
+    "quick": {"cases[trained on a series of another length]": 311, "distinct_nontrivial": 670, "segments_checked": 4500, "cases_with_adjacent_flagged": 570,
               "cases[ScriptedChangeDetector]": 250, "cases[PELT]": 230, "wrapped_untouched_checks": 940},
     "thorough": {"distinct_nontrivial": 4000, "segments_checked": 50000},
 }
